@@ -344,6 +344,10 @@ class SimulatorBase(
         if isinstance(initial_state, SimulationStateBase):
             return initial_state
 
+        if isinstance(initial_state, value.ProductState) and set(initial_state.qubits) == set(qubits):
+            # A product state names its qubits, so lay it out in the order used by this simulation.
+            initial_state = initial_state.state_vector(qubit_order=qubits)
+
         classical_data = value.ClassicalDataDictionaryStore()
         if self._split_untangled_states:
             args_map: dict[cirq.Qid | None, TSimulationState] = {}
